@@ -70,6 +70,10 @@ def gen_property(ch):
         return evs[0] if width == 1 else ('disj', tuple(evs))
 
     A, B = ['a1', 'a2', 'a3'], ['b1', 'b2', 'b3']
+    if ch.int(0, 3) == 0:
+        # trigger and behaviour may be events on the same topics (a channel may not repeat inside ONE disjunction only);
+        # with equal predicates the two positions are then equal sub-trees
+        A = B = ['b1', 'b2', 'b3']
     trig = None
     if pk in ('absence', 'existence'):
         beh = event(B, ch.int(1, 3), visible, ch.pick([None, 'each']))
@@ -92,6 +96,8 @@ def gen_property(ch):
         trig = event(A, w, visible, mode)
         vis2 = visible + (['S'] if mode == 'shared' else []) + ([trig[2]] if w == 1 and trig[2] else [])
         beh = event(B, ch.int(1, 3), vis2, ch.pick([None, 'each']))
+    if A is B and trig is not None and ch.bool() and not any(n[0] == 'var' or (n[0] == 'ev' and n[2]) for n in mast.walk(trig)):
+        beh = trig  # the very same event (sub-tree) in both positions
     bound = ch.pick([None, ('2', 's'), ('2', 's'), ('2000', 'ms')])
     m = ('prop', (), ('scope', sk, act, term), ('pat', pk, trig, beh, bound))
     # the rest of the tape drives longer sampled traces (length 5..8) over the property's own alphabet
